@@ -245,6 +245,8 @@ func scenarioC05(r *Run) {
 	if g.Chance("malformed", 0.15) {
 		w.malformedAt = g.Int("malformedat", 5)
 	}
+	r.applyForce(w.cEnd)
+	defer func() { r.noteOps(w.cEnd) }()
 	w.cEnd.OnFault = func(kind int) {
 		switch kind {
 		case fRecvErr, fRecvDataErr:
